@@ -112,6 +112,12 @@ class SymExec:
         if k == "Struct":
             if str(n.get("path", "")).endswith("Complex") or base_ty(ty_of(n)).startswith("complex::Complex") or {f["name"] for f in n.get("fields", [])} == {"real", "imag"}:
                 fs = {f["name"]: self.ev(f["e"]) for f in n["fields"]}
+                if isinstance(n.get("base"), dict) and ("real" not in fs or "imag" not in fs):
+                    # struct update syntax `Complex { real: .., ..z }`: the other component is z's
+                    bp = self.place(n["base"])
+                    for comp in ("real", "imag"):
+                        if comp not in fs:
+                            fs[comp] = self.read(("field", bp, comp))
                 return ("cplx", fs.get("real"), fs.get("imag"))
         if k == "Block" and not n.get("stmts") and n.get("expr") is not None:
             return self.ev(n["expr"])
